@@ -203,6 +203,95 @@ PROPS = {
         partial="c17_unset_not_rendered_partial covers struct fields and union members in JSON; the full statement is refuted (c17_unset_refuted: EnumName/KeyValueAsString/EncodeTypedValue/"
                 "leaf-list elements render UNSET as \"\", wrapper unions panic: known findings). 'All schemas' is per-run validation of the corpus x flag matrix.",
     ),
+    "C03": dict(
+        level="proof",
+        technique="Coq proof (string-keyed diff algorithm = structural diff of leaf maps, pointwise characterisation of apply_diff, induction over version histories) + differential correspondence check + oracle with the real UnmarshalNotifications",
+        claim="For the transcription of ygot/diff.go (findSetLeaves incl. the ForEachDataField2 walk, processedPaths, path annotations, DiffPathOpt; toStringPathMap; Diff/DiffWithAtomic; "
+              "IgnoreAdditions; orderedMapLeaves for atomic groups; KeyValueAsString; EncodeTypedValue): applying the notifications to the leaf map of a gives the leaf map of b, ordered lists "
+              "in b's order for DiffWithAtomic (c03_apply_partial, c03_apply_order_partial), every update/delete is justified and nothing is forgotten (c03_sound_updates_partial, "
+              "c03_sound_deletes_partial, c03_complete_partial), Diff(a,a) is empty with no guard (c03_minimal), IgnoreAdditions omits exactly the updates of leaves new in b "
+              "(c03_ignore_additions_partial), version histories replay to the last version (c03_history_partial, induction over the version list).",
+        note="Trusted: Coq kernel; hand transcription tied by the 'diff' stream; apply_diff is a leaf-map semantics of UnmarshalNotifications (the real one is exercised by the oracle); Go map "
+             "iteration order abstracted; float64 equality = bit equality. The dependence on PathToString injectivity is explicit (df_lm_wfb, via C08's print_injective).",
+        coq_files=["Tree/Diff", "Tree/DiffProofs", "Corr/DiffCorr"],
+        streams=[dict(name="diff", n=N(500, 2000))],
+        signatures=["diff/"],
+        trusted=["a Go map[string]*pathInfo is its sorted association list keyed by the PathToString text", "%g texts of floats from the harness table"],
+        assumptions=[UTF8],
+        partial="Guards (computable, evaluated per case): df_lm_wfb = wf_pathb on every leaf path (C08 injectivity, no backslash in key values), df_lm_nodupb, df_isolatedb (else c03_atomic_refuted: "
+                "the atomic notification of a changed ordered list names its enclosing container, known finding). c03_minimal is unguarded.",
+    ),
+    "C22": dict(
+        level="proof",
+        technique="Coq proof (successful runs of the intent builder are determined by their set of leaf writes and delete markers; "
+                  "sorted-map extensionality) + differential correspondence check + property oracle on the implementation (with and without schema)",
+        claim="For the transcription of gnmidiff's schema-less path (flattenOCJSON, protoLeafToJSON, writeUpdate, populateUpdateNoSchema, "
+              "prefixStr/fullPathStr, minimalSetRequestIntent incl. both trie conflict checks, DiffSetRequest): DiffSetRequest(a,a) has nothing "
+              "missing/extra/mismatched (c22_refl); swapping the arguments swaps missing/extra and A/B and keeps the common entries, for arbitrary "
+              "intents (c22_swap, c22_swap_requests); whenever both requests are accepted, reordering updates (c22_reorder_updates), moving common "
+              "elements between prefix and paths (c22_prefix_split, full equality), turning a leaf replace into an update (c22_leaf_replace_vs_update), "
+              "duplicating an update (c22_dup_identical) and replacing one JSON-IETF update by its leaf updates (c22_json_vs_leaves_partial) leave "
+              "the intent unchanged. The statements that fail on the code as it is are refuted in Coq with the inputs the oracle also finds "
+              "(c22_dup_identical_refuted: leaf-list written twice panics; c22_json_vs_leaves_refuted: list key values are not escaped) and are "
+              "proved for the model of the repaired code (c22_dup_identical_fixed, c22_json_vs_leaves_fixed). The with-schema path "
+              "(SetNode ; Marshal7951 ; flattenOCJSON) is not modelled: the oracle evaluates the same statements on it.",
+        note="Trusted: Coq kernel; hand transcription tied by the 'gdiff' stream (requests from random trees of the generated packages and synthetic "
+             "requests with arbitrary JSON; Ok/Err/Panic and the complete diff compared); Go maps as strictly sorted association lists; "
+             "strconv float formatting enters as tables (theorems hold for every table); where a JSON update contains both an entry that errors and "
+             "one that panics Go's map order decides which is seen: the checker accepts exactly the model's two schedules (c22_schedule_independent: "
+             "successful results do not depend on it); JSON objects whose member names collide after namespace stripping, NUL runes and invalid UTF-8 "
+             "are outside the model; derekparker/trie is modelled as a set of strings with prefix search.",
+        coq_files=["Diffs/GnmiDiff", "Diffs/GnmiDiffProofs", "Corr/GnmiDiffCorr"],
+        streams=[dict(name="gdiff", n=N(600, 4000))],
+        signatures=["refl", "swap", "json-vs-leaves", "prefix-split", "reorder", "leaf-replace-vs-update", "dup", "panic"],
+        trusted=["gd_oracle tables (FormatFloat 'f', %g) written by the harness with strconv/fmt",
+                 "the structured reading gd_sleaves of an RFC 7951 tree (specification side of c22_json_vs_leaves_*)"],
+        partial="c22_prefix_split needs element names that do not end in '/'; c22_leaf_replace_vs_update needs that no later replace has the same "
+                "path; c22_dup_identical_partial (the duplicate is accepted) holds for updates that write no leaf-list value, refuted in general "
+                "(Panic); c22_json_vs_leaves_partial needs gd_keys_ok (every list key spelt as PathToString spells it: nothing to escape, numbers "
+                "< 10^6; JSON without lists qualifies) and that no written leaf is also deleted/replaced by the request; refuted without the "
+                "guard. Documented limitations of the schema-less mode (every scalar member of a list element is a key; 64-bit integers and "
+                "module-qualified identityrefs differ between JSON and TypedValues; [] is read as an empty leaf-list) are known findings with "
+                "Coq witnesses. With-schema behaviour: oracle only.",
+    ),
+    "C23": dict(
+        level="proof",
+        technique="Coq proof (sorted-map extensionality over the comparison of DiffSetRequestToNotifications) + differential correspondence "
+                  "check + single-edit oracle on the implementation (with and without schema)",
+        claim="For the comparison DiffSetRequestToNotifications performs between a SetRequest intent and the leaves of the notifications "
+              "(diff_intent_notifs, for arbitrary intents): equal leaves give no missing/extra/mismatched update (c23_exact, c23_exact_request); "
+              "removing one leaf makes exactly that leaf missing (c23_single_edit_remove), changing one leaf makes exactly that leaf mismatched "
+              "(c23_single_edit_change), adding one leaf makes exactly that leaf extra iff it lies strictly below a deleted or replaced path and "
+              "changes nothing otherwise (c23_single_edit_add). The way requests and notifications are flattened to these maps is the C22 model, "
+              "compared with the real DiffSetRequestToNotifications on every run; the oracle performs the single edits on the real code.",
+        note="Trusted: as C22 (same model and checker); correspondence stream 'gdiffnotifs'. The with-schema path is covered by the oracle only.",
+        coq_files=["Diffs/GnmiDiff", "Diffs/GnmiDiffProofs", "Corr/GnmiDiffCorr"],
+        streams=[dict(name="gdiffnotifs", n=N(450, 3000))],
+        signatures=["exact", "single-edit", "unescaped-key", "backslash-in-key", "non-key-scalar-as-key", "numeric-key-exponent",
+                    "int64-as-string", "identityref-module-prefix", "empty-list-as-leaf", "panic"],
+        trusted=["gd_oracle tables written by the harness with strconv/fmt"],
+        partial="'below a deleted path' is strict: a leaf AT a deleted path is not reported (c23_at_deleted_path_witness, known finding); "
+                "leaves outside every deleted sub-tree are ignored by design. The C22 findings about list-key spelling make the classification "
+                "fail on the implementation for the affected leaves (known findings); with-schema behaviour: oracle only.",
+    ),
+    "C25": dict(
+        level="translation_validation",
+        technique="regenerated table of map-range sites (Go translator over go/types) + Coq theorems about the site classes and pipelines + multi-process byte comparison of generator output",
+        claim="Every `for ... range` over a Go map (or over a slice filled in map order and returned unsorted) in the code the generators run is listed, with a conservative syntactic class of its "
+              "loop body, in Gen_MapRanges.v, regenerated from /repo's working tree on every run; c25_sites (vm_compute on that table) shows every site is of an order-insensitive class or "
+              "allow-listed under the hash of its current body. Properties/C25.v proves for all inputs that each accepted class is insensitive to the iteration order and that a pipeline whose "
+              "stages are order-insensitive gives the same result in every run (c25_pipeline, c25_pipeline_table). The failing-input search runs generator and proto_generator k times in "
+              "independent processes per schema x flag set and compares output bytes.",
+        note="Trusted: Coq kernel; the classifier (harness/maprange) and the reviewed allow-list maprange_allow.json, i.e. the hypothesis of c25_pipeline_table that an accepted site denotes an "
+             "order-insensitive stage; purity whitelist of external packages; 'no output is produced on error'.",
+        coq_files=["Gen/Determinism", "Gen/DeterminismProofs"],
+        pre=lambda tier, seed: __import__("c25_pre").pre(tier, seed),
+        trusted=["syntactic classifier /verif/harness/maprange and the justifications in /verif/maprange_allow.json (keyed by package, function, body hash)",
+                 "build/coqgen/Gen_MapRanges.v and C25_sites.v are compiled by the pre hook with coqc -Q build/coqgen YgotGen"],
+        partial="The theorems are about the classified sites and an abstract pipeline of stages, not about the generator's code: nesting, aliasing and the meaning of called functions are covered by "
+                "the classifier's conservativeness and the allow-list only. Process-level nondeterminism other than map iteration order, and goyang's own map ranges, are covered by the "
+                "multi-process experiment only.",
+    ),
 }
 
 NOT_APPLICABLE = {}
